@@ -17,7 +17,14 @@ RULE = ("every generated interval is built twice with the real library, on the w
         "exhaustive small scope (see exhaustive_scope) + random larger intervals, all start frames, both strands, "
         "chunks on + and -; a case is non-trivial when the library answered ok and the chunk window CUTS the interval "
         "(it neither contains nor misses it); distinct = distinct operation lines. Aspects: loc, ident, seq, ccodons, "
-        "kcodons, kwcodons (a codon window on top of the chunk), cdsseq, prot, kframes")
+        "kcodons, kwcodons / cwcodons (a codon window on top of the chunk, chunk-relative / chromosome answers), cdsseq, "
+        "prot, kframes. QUERY ORDER: `order` lines evaluate every observable of every node on two fresh chunk-built "
+        "objects (chromosome views first / chunk views first) and must coincide; a trailing @k / @c on any other op "
+        "evaluates the chunk-relative / chromosome-level views of the same object BEFORE the op's question (same "
+        "predicate as without). ALTERNATIVE CONSTRUCTORS: a trailing via:fcrl|dict|lift|relift|snv:<p> builds the chunk "
+        "twin by from_chunk_relative_location / from_dict(parent=chunk) / liftover_to_parent_or_seq_chunk_parent (from the "
+        "whole chromosome; from the opposite-strand chunk) / incorporate_variants(SNV); every aspect is then judged by "
+        "the SAME predicate, and `same` compares it with the ordinary construction on the same chunk")
 EXHAUSTIVE_NOTE = ""
 TRUSTED = ["Model/Chunk.lean is hand-written; tied to gene/interval.py, cds.py, transcript.py, feature.py, gene.py, "
            "collections.py, io/parser.py by this run's correspondence",
@@ -31,9 +38,14 @@ ASSUMPTIONS = ["the chunk's letters are the chromosome's letters of the window (
                "'bounds are inferred from the parent' makes the twins different collections; their location is still "
                "checked against the chunk window)",
                "names, ids and qualifiers are absent (they are chunk independent constructor arguments: C08)",
-               "sequence letters ACGTN", "translate() with its defaults (DEFAULT table, strict)"]
-MODEL_OPS = None
-CODON_OPS = ("ccodons", "kcodons", "kwcodons", "cdsseq", "prot", "kframes")
+               "sequence letters ACGTN", "translate() with its defaults (DEFAULT table, strict)",
+               "via:fcrl / via:snv: the object lies inside the chunk and no two of its blocks touch (a chunk-relative "
+               "location is a set of positions: the lift back to the chromosome merges touching blocks); via:snv on a "
+               "coding object: one uninterrupted reading frame (incorporate_variants re-derives the frames from the "
+               "first one); metadata (is_primary_*) is outside the comparison",
+               "via: on an AnnotationCollection: explicit bounds"]
+CODON_OPS = ("ccodons", "kcodons", "kwcodons", "cwcodons", "cdsseq", "prot", "kframes")
+MODEL_OPS = {"loc", "ident", "seq", "same"} | set(CODON_OPS)      # `order` is decided by the spec alone
 
 
 def impl(line):
@@ -177,22 +189,126 @@ def tx_around(rng, st, exons, fv, utr=(0, 1, 2)):
     return ("T", st, ex, [(s, e, f) for (s, e), f in zip(exons, fv)])
 
 
-def coding_ops(run, seq, ws, we, wst, d, full):
-    yield line("kcodons", seq, ws, we, wst, d)
+def pre_mod(run):
+    """query-order modifier of one line: none / chunk views first / chromosome views first"""
+    r = run.rng.random()
+    m = "" if r < 0.4 else (" @k" if r < 0.75 else " @c")
+    run.count("query-order:" + (m.strip() or "plain"))
+    return m
+
+
+def codon_window(run, seq, d):
+    """a codon window aimed at the CDS span, start < end, inside the chromosome"""
+    _, ex = cds_of(d)
+    lo = run.rng.randint(max(0, ex[0][0] - 1), min(len(seq) - 1, ex[-1][1]))
+    hi = run.rng.randint(lo + 1, min(len(seq), max(lo + 1, ex[-1][1] + 1)))
+    return lo, hi
+
+
+def coding_ops(run, seq, ws, we, wst, d, full, via=""):
+    yield line("kcodons", seq, ws, we, wst, d) + via + pre_mod(run)
     if full or run.rng.random() < 0.35:
-        # a codon window on top of the chunk: aimed at the CDS span, start < end, inside the chromosome
-        _, ex = cds_of(d)
-        lo = run.rng.randint(max(0, ex[0][0] - 1), min(len(seq) - 1, ex[-1][1]))
-        hi = run.rng.randint(lo + 1, min(len(seq), max(lo + 1, ex[-1][1] + 1)))
+        lo, hi = codon_window(run, seq, d)
         run.count("codon-window-on-chunk")
-        yield line("kwcodons", seq, ws, we, wst, d) + f" {lo} {hi}"
+        yield line("kwcodons", seq, ws, we, wst, d) + f" {lo} {hi}" + via + pre_mod(run)
+    if full or run.rng.random() < 0.12:
+        lo, hi = codon_window(run, seq, d)
+        yield line("cwcodons", seq, ws, we, wst, d) + f" {lo} {hi}" + via + pre_mod(run)
     if full or run.rng.random() < 0.25:
-        yield line("ccodons", seq, ws, we, wst, d)
+        yield line("ccodons", seq, ws, we, wst, d) + via + pre_mod(run)
     if full or run.rng.random() < 0.3:
-        yield line("cdsseq", seq, ws, we, wst, d)
-        yield line("prot", seq, ws, we, wst, d)
+        yield line("cdsseq", seq, ws, we, wst, d) + via + pre_mod(run)
+        yield line("prot", seq, ws, we, wst, d) + via + pre_mod(run)
     if full or run.rng.random() < 0.3:
-        yield line("kframes", seq, ws, we, wst, d)
+        yield line("kframes", seq, ws, we, wst, d) + via + pre_mod(run)
+
+
+def order_line(run, seq, ws, we, wst, d, via=""):
+    lo, hi = codon_window(run, seq, d) if cds_of(d) else span_of(d)
+    if hi <= lo:
+        hi = lo + 1
+    run.count("order-line:" + d[0])
+    return line("order", seq, ws, we, wst, d) + f" {lo} {hi}" + via
+
+
+# ---- alternative constructors
+
+VIAS = ("fcrl", "dict", "lift", "relift", "snv")
+
+
+def block_lists(d):
+    if d[0] == "F":
+        return [list(d[2])]
+    if d[0] == "D":
+        return [[(s, e) for s, e, _ in d[2]]]
+    if d[0] == "T":
+        return [list(d[2])] + ([[(s, e) for s, e, _ in d[3]]] if d[3] else [])
+    if d[0] in "GQ":
+        return [b for x in d[1] for b in block_lists(x)]
+    return [b for x in d[1] + d[2] for b in block_lists(x)]
+
+
+def inside(d, ws, we):
+    return all(ws <= s and e <= we for bl in block_lists(d) for s, e in bl)
+
+
+def strict_gaps(d):
+    return all(bl[i][1] < bl[i + 1][0] for bl in block_lists(d) for i in range(len(bl) - 1))
+
+
+def one_frame(d):
+    c = cds_of(d)
+    if not c:
+        return True
+    st, ex = c
+    bl = [(s, e) for s, e, _ in ex]
+    fv = [f for _, _, f in ex]
+    return fv == G.consistent_frames(bl, st, fv[0] if st == "+" else fv[-1])
+
+
+def via_applies(d, ws, we, via):
+    if d[0] == "A" and d[3] is None:
+        return False
+    if via in ("fcrl", "snv"):
+        return d[0] in "FTD" and inside(d, ws, we) and strict_gaps(d) and (via == "fcrl" or one_frame(d))
+    return True
+
+
+def alt_choice(quick, ws, we, wst, i, period):
+    """constructors tried on one (object, window, chunk strand) of the exhaustive alternative-constructor scope: the two
+    chunk-relative ones always; of the three that go through from_dict, all (thorough) or one in rotation, on one
+    frame vector in rotation (quick)"""
+    if not quick:
+        return VIAS
+    out = ["fcrl", "snv"]
+    if (i + ws + we) % period == 0:
+        out.append(("dict", "lift", "relift")[(ws + 2 * we + (wst == "-")) % 3])
+    return out
+
+
+def via_token(run, ws, we, via):
+    run.count("alt-ctor:" + via)
+    return f" via:snv:{run.rng.randrange(ws, we)}" if via == "snv" else f" via:{via}"
+
+
+def alt_ops(run, seq, ws, we, wst, d, via, full):
+    """the aspects of one alternatively constructed twin"""
+    v = via_token(run, ws, we, via)
+    run.count(f"alt-ctor-chunk{wst}:{via}:{d[0]}")
+    yield line("loc", seq, ws, we, wst, d) + v
+    yield line("same", seq, ws, we, wst, d) + v
+    if full or run.rng.random() < 0.5:
+        yield line("ident", seq, ws, we, wst, d) + v
+    if d[0] != "D" and (full or run.rng.random() < 0.5):
+        yield line("seq", seq, ws, we, wst, d) + v
+    if cds_of(d):
+        if full:
+            yield from coding_ops(run, seq, ws, we, wst, d, True, via=v)
+        else:
+            ops = list(coding_ops(run, seq, ws, we, wst, d, True, via=v))
+            yield from run.rng.sample(ops, 2)
+    if full or run.rng.random() < 0.15:
+        yield order_line(run, seq, ws, we, wst, d, via=v)
 
 
 def random_feature(rng, n, kmax=4):
@@ -288,6 +404,8 @@ def cases(run):
                             yield line("seq", seq, ws, we, wst, d)
                         if wst == "+" and (ws + we) % 3 == 0:
                             yield line("ident", seq, ws, we, wst, d)
+                        if not quick or (ws + 2 * we + len(bl)) % 3 == 0:
+                            yield order_line(run, seq, ws, we, wst, d)
     # ---- 2. CDS, exhaustive
     for k, m in cds_scopes:
         for exons in G.layouts(k, m):
@@ -304,6 +422,7 @@ def cases(run):
                                 continue
                             count_window(run, "D", d, ws, we, wst)
                             yield from coding_ops(run, seq, ws, we, wst, d, full=False)
+                            yield order_line(run, seq, ws, we, wst, d)
                             if (ws + 2 * we) % 5 == 0:
                                 yield line("loc", seq, ws, we, wst, d)
                                 yield line("ident", seq, ws, we, wst, d)
@@ -331,6 +450,7 @@ def cases(run):
                 yield line("ident", seq, ws, we, wst, d)
                 yield line("seq", seq, ws, we, wst, d)
                 yield from coding_ops(run, seq, ws, we, wst, d, full=False)
+                yield order_line(run, seq, ws, we, wst, d)
     colls = []
     for i in range(6 if quick else 14):
         g = ("G", [fam[(3 * i) % len(fam)], ("T", "-", [(1, 3), (6, 10)], [])][: 1 + i % 2])
@@ -349,6 +469,39 @@ def cases(run):
                 yield line("ident", seq, ws, we, wst, d)
                 if (ws + we) % 2 == 0:
                     yield line("seq", seq, ws, we, wst, d)
+                if not quick or (ws + we) % 3 == 0:
+                    yield order_line(run, seq, ws, we, wst, d)
+                if d[0] != "A" or d[3]:
+                    via = ("dict", "lift", "relift")[(ws + we + (wst == "-")) % 3]
+                    if not quick or (2 * ws + we) % 4 == 0:
+                        yield from alt_ops(run, seq, ws, we, wst, d, via, full=False)
+    # ---- 3b. alternative constructors, exhaustive small scope: every layout x every window x both chunk strands x
+    #          every constructor that applies
+    na = 5 if quick else 7
+    for cls in "FT":
+        seq = letters(rng, na)
+        for bl in layouts_on(na):
+            for st in "+-":
+                d = ("F", st, bl) if cls == "F" else ("T", st, bl, [])
+                for ws, we in all_windows(na):
+                    for wst in "+-":
+                        for via in alt_choice(quick, ws, we, wst, 0, 1):
+                            if via_applies(d, ws, we, via):
+                                yield from alt_ops(run, seq, ws, we, wst, d, via, full=False)
+    for k, m in ([(1, 4), (2, 2)] if quick else [(1, 6), (2, 3)]):
+        for exons in G.layouts(k, m):
+            n = exons[-1][1] + 1
+            seq = letters(rng, n)
+            for st in "+-":
+                for ifv, fv in enumerate(G.frame_vectors(k)):
+                    for shape in "DT":
+                        d = cds_desc(st, exons, fv) if shape == "D" else \
+                            ("T", st, [(exons[0][0] - 1, exons[0][1])] + exons[1:], [(s, e, f) for (s, e), f in zip(exons, fv)])
+                        for ws, we in all_windows(n):
+                            for wst in "+-":
+                                for via in alt_choice(quick, ws, we, wst, ifv + (shape == "T"), 3 ** k):
+                                    if via_applies(d, ws, we, via):
+                                        yield from alt_ops(run, seq, ws, we, wst, d, via, full=False)
     # ---- 4. random larger
     nrand = 500 if quick else 12000
     for _ in range(nrand):
@@ -387,3 +540,11 @@ def cases(run):
                 yield line("seq", seq, ws, we, wst, d)
             if cds_of(d):
                 yield from coding_ops(run, seq, ws, we, wst, d, full=True)
+            yield order_line(run, seq, ws, we, wst, d)
+            via = rng.choice(VIAS)
+            if via in ("fcrl", "snv") and d[0] in "FTD" and not via_applies(d, ws, we, via):
+                # aim the window at the object so that the chunk-relative constructors apply
+                lo, hi = span_of(d)
+                ws, we = max(0, lo - rng.randint(0, 2)), min(n, hi + rng.randint(0, 2))
+            if via_applies(d, ws, we, via):
+                yield from alt_ops(run, seq, ws, we, wst, d, via, full=True)
